@@ -648,7 +648,14 @@ static int recv_trace_metadata(int sock, int len)
 	if (read_all(sock, filedata, len) < 0)
 		goto lost;
 
-	write_client_file(client, filename, 1, filedata, len);
+	/*
+	 * The file name is chosen by the client as well: it has to name a file
+	 * in the directory of that client, not a path that leads elsewhere.
+	 */
+	if (filename[0] == '\0' || strchr(filename, '/') || !strcmp(filename, ".") || !strcmp(filename, ".."))
+		pr_warn("ignore a file with an invalid name from a client: %s\n", filename);
+	else
+		write_client_file(client, filename, 1, filedata, len);
 
 	free(filedata);
 	free(filename);
